@@ -269,6 +269,7 @@ def _check_scope(ctx, r, name):
         tb = _traversal_blocks(mb, ctx.facts)
         takes = []
         stores = []
+        replaces = []
         swaps = []      # mem::swap(&mut self.<name>, &mut local): a save when the local is a fresh empty vector, a restore when it holds the saved one
         for blk in mb["blocks"]:
             if blk.get("cleanup"):
@@ -277,6 +278,11 @@ def _check_scope(ctx, r, name):
             if t.get("k") == "call" and callee_name(t).endswith("core::mem::take") and t["args"]:
                 if name in {first_field(f) for f in self_field_of(fl.op_sources(t["args"][0]))}:
                     takes.append((blk["i"], t))
+            if t.get("k") == "call" and callee_name(t).endswith("core::mem::replace") and len(t["args"]) == 2:
+                # `mem::replace(&mut self.<name>, x)`: takes what is pending and stores x in one step
+                if name in {first_field(f) for f in self_field_of(fl.op_sources(t["args"][0]))}:
+                    takes.append((blk["i"], t))
+                    replaces.append((blk["i"], t))
             if t.get("k") == "call" and callee_name(t).endswith("core::mem::swap") and len(t["args"]) == 2:
                 fa = [name in {first_field(f) for f in self_field_of(fl.op_sources(a))} for a in t["args"]]
                 if fa[0] != fa[1]:
@@ -308,6 +314,11 @@ def _check_scope(ctx, r, name):
             if src is None or not any(b in g.reach_after(tt) for tt in tb):
                 continue
             if any(x[0] == "call" and x[1].endswith("core::mem::take") and x[2] in save_bbs for x in fl.sources(src["l"])):
+                restore_blocks.add(b)
+        for b, t in replaces:
+            src = place_of(t["args"][1])
+            if src is not None and any(b in g.reach_after(tt) for tt in tb) and \
+                    any(x[0] == "call" and x[1].endswith("core::mem::take") and x[2] in save_bbs for x in fl.sources(src["l"])):
                 restore_blocks.add(b)
         for b, t, l in swaps:
             # swapping the saved vector back after the traversal restores it
